@@ -87,7 +87,7 @@ def correspondence(ctx):
                   show='show', shard=ctx.n(5, 20))
 
 
-def check_stream(ctx, S, DEF, cfg, stream):
+def check_stream(ctx, S, DEF, cfg, stream, probe=None):
     def bad(klass, what, **w):
         ctx.fail(klass, what, dict(w, config=list(cfg), stream=[list(x) for x in stream]))
     soh = ord(DEF.CMD_SOH)
@@ -107,8 +107,12 @@ def check_stream(ctx, S, DEF, cfg, stream):
         bad('receiver_idle_discard', 'an idle parser did not discard a non-header byte without effect')
     # 3. completion exactly at flen(msg[3], msg[5]) and never beyond 263 bytes
     rng = ctx.rng
-    c = rng.randrange(256)
+    # half of the time a command of the protocol (extended with parameters included: the last byte of `body` is
+    # then NOT the closing 0x03 -- completion is by length alone, seeded change C03-r5m1)
+    c = rng.choice([rng.randrange(256), ord(rng.choice(DEF.ACCEPTED_COMMANDS)), ord(rng.choice(DEF.CMD_EXT_WITH_PARAMS))])
     l = rng.choice([0, 1, 2, 255, rng.randrange(256)])
+    if probe is not None:
+        c, l = probe            # replay of a recorded witness
     n = flen(DEF, c, l)
     body = [soh, 0x70, 5, c, 6, l] + [(3 * i + 1) % 256 for i in range(300)]
     s2 = copy.deepcopy(system)
@@ -168,5 +172,6 @@ def replay(ctx, obj):
         return not fr or len(fr) != 1
     S = H.install(H.Recorder(frozen=H.NOW0))
     n0 = len(ctx.failures)
-    check_stream(ctx, S, DEF, tuple(w['config']), w['stream'])
+    pr = (w['command'], w['length_byte']) if 'command' in w and 'length_byte' in w else None
+    check_stream(ctx, S, DEF, tuple(w['config']), w['stream'], probe=pr)
     return any(f['klass'] == obj.get('klass') for f in ctx.failures[n0:])
